@@ -1383,6 +1383,9 @@ class ArgumentParser(ParserDeprecations, ActionsContainer, ArgumentLinking, argp
                     value = Namespace(value)
                 if isinstance(value, Namespace):
                     new_keys = value.__dict__.keys()
+                    if not new_keys and not (_find_action(self, key) or _is_branch_key(self, key) or key in self.groups):
+                        # an empty mapping has no leaf that validate could check
+                        raise NSKeyError(f"Key '{key}' is not expected")
                     keys += [key + "." + k for k in new_keys if key + "." + k not in keys]
                 cfg[key] = value
                 continue
